@@ -51,7 +51,7 @@ func init() {
 
 		// `seconds+toleranceSeconds < now || now+toleranceSeconds < seconds` and what follows
 		c18Cond(s, e, sec, "VerifySignature", "if seconds+toleranceSeconds < now", "outsideWindow")
-		c18Cond(s, e, aes, "pkcs5Unpadding", "if unpadding >= length", "unpadRejects")
+		c18Cond(s, e, aes, "pkcs5Unpadding", "if unpadding > length", "unpadRejects")
 		c18SliceHigh(s, e, aes, "pkcs5Unpadding", "unpadKeep")
 		c18Assign(s, e, aes, "pkcs5Padding", "padding", "padLen")
 		c18Cond(s, e, cry, "decryptBody", "if limitBytes > 0", "lengthExceeded")
